@@ -45,10 +45,9 @@ def generate(rng, tier):
         vals = gen.gen_values(rng, kind, n, na, rng.choice(["few", "distinct"]), hostile)
         if kind == "str" and rng.random() < 0.2:
             vals = [v if v is None or rng.random() < 0.5 else rng.choice(gen.STR_NULLISH) for v in vals]
-        if kind == "datetime" and target == "pandas":
-            vals = [None if v is None else rng.choice(gen.DATETIMES) for v in vals]
-        if kind == "date" and target == "pandas":
-            vals = [None if v is None else rng.choice(gen.DATES) for v in vals]
+        if kind == "str" and rng.random() < 0.1:
+            # NUL characters inside and at the end of strings (fixed-width NumPy strings cannot hold trailing NULs)
+            vals = [v if v is None or rng.random() < 0.5 else rng.choice(["ab\x00", "e\x00f", "\x00", "ab"]) for v in vals]
         spec.append((f"c{j}" if rng.random() < 0.85 else rng.choice(["a b", "items", "日本"]) + str(j), kind, vals))
     return {"target": target, "spec": spec, "json_map": rng.random() < 0.6}
 
